@@ -1,6 +1,8 @@
 """C05 — Angle stays in [0,360), frozen values never change, text form is canonical."""
 from __future__ import annotations
 
+import ast
+import contextlib
 import copy
 import math
 import pickle
@@ -54,7 +56,7 @@ MANIFEST = dict(
          'format_float prints "-0" on the carved-out class (suite pins it); a "-0" outside that class has its own key.',
 )
 
-IMPORTS = ['Coq.ZArith.ZArith', 'Coq.NArith.NArith', 'Coq.Lists.List', 'Coq.Strings.String', 'SV.Num.Mod360', 'SV.Num.AngleSites',
+IMPORTS = ['Coq.ZArith.ZArith', 'Coq.NArith.NArith', 'Coq.Lists.List', 'Coq.Strings.String', 'SV.Num.Mod360', 'SV.Num.AngleSites', 'SV.Num.AngleCtor',
            'SV.Num.Dec6', 'SV.Num.Dec6CarveProofs', 'SV.Num.VecText', 'SV.SM.FrozenOps', 'SV.SM.FrozenCopy', 'SV.SM.FrozenCopyValue',
            'SV.Gen.AngleSites_gen']
 PRE = '''Import ListNotations.
@@ -62,6 +64,40 @@ Fixpoint bad_idx {A} (f : A -> bool) (n : N) (l : list A) : list N := match l wi
 Definition t3_eqb (a b : Z * Z * Z) : bool := let '(a1, a2, a3) := a in let '(b1, b2, b3) := b in (Z.eqb a1 b1 && Z.eqb a2 b2 && Z.eqb a3 b3)%bool.
 Fixpoint nl_eqb (a b : list N) : bool := match a, b with [], [] => true | x :: a', y :: b' => (N.eqb x y && nl_eqb a' b')%bool | _, _ => false end.
 '''
+
+
+class ImplTimeout(Exception):
+    """A call into the implementation used more CPU time than IMPL_CPU_LIMIT: treated as a failing input (a fault can
+    turn a normalisation into a loop that does not end for 1e300)."""
+
+
+IMPL_CPU_LIMIT = 20.0       # seconds of CPU time of this process for ONE call that normally takes microseconds
+
+
+@contextlib.contextmanager
+def impl_limit(seconds: float = IMPL_CPU_LIMIT):
+    """Bound one call into the implementation by CPU time (ITIMER_VIRTUAL: does not advance while the process waits for
+    a loaded machine, so slowness cannot raise it).  Only available in the main thread; elsewhere no limit."""
+    import signal
+    import threading
+    if threading.current_thread() is not threading.main_thread():
+        yield
+        return
+
+    def handler(sig, frame):
+        raise ImplTimeout()
+    old = signal.signal(signal.SIGVTALRM, handler)
+    signal.setitimer(signal.ITIMER_VIRTUAL, seconds)
+    try:
+        yield
+    finally:
+        signal.setitimer(signal.ITIMER_VIRTUAL, 0)
+        signal.signal(signal.SIGVTALRM, old)
+
+
+@contextlib.contextmanager
+def no_limit():
+    yield
 
 
 class Pending:
@@ -540,7 +576,7 @@ def gen_op(rng: random.Random, regs: list) -> tuple:
              'binop_scalar', 'binop_vec', 'rbinop_scalar', 'neg', 'abs', 'norm', 'cross', 'vec_to_angle', 'matmul', 'tuple_matmul',
              'iop_scalar', 'iop_vec', 'imatmul', 'set_attr', 'set_item', 'vec_minmax', 'vec_localise', 'vec_rotate', 'transform',
              'ang_mul', 'ang_rmul', 'ang_imul', 'mat_to_angle', 'mat_transpose', 'mat_inverse', 'mat_setitem', 'str', 'hash', 'eq', 'iter_ctor',
-             'bbox', 'with_axes', 'divmod', 'round']
+             'bbox', 'with_axes', 'divmod', 'round', 'ctor_cross', 'new_kw', 'set_key']
     name = rng.choice(names)
     a = rng.randrange(len(regs)) if regs else None
     b = rng.randrange(len(regs)) if regs else None
@@ -567,6 +603,11 @@ def apply_op(op: tuple, regs: list):
     if name == 'new_mat_roll': return new((Matrix, FrozenMatrix)[k & 1].from_roll(x))
     if name == 'new_mat_angle': return new(Matrix.from_angle(x, y, z))
     if name == 'new_fmat_angle': return new(FrozenMatrix.from_angle(x, y, z))
+    if name == 'new_kw':
+        cls = (Vec, FrozenVec, Angle, FrozenAngle)[k]
+        kw = dict(zip(FAMILY_KW['ang' if k >= 2 else 'vec'], sc))
+        if x < 0: del kw[FAMILY_KW['ang' if k >= 2 else 'vec'][1]]
+        return new(cls(**kw))
     if name == 'ang_from_str': return new((Angle, FrozenAngle)[k & 1].from_str(f'{x!r} {y!r} {z!r}'))
     if name == 'vec_from_str': return new((Vec, FrozenVec)[k & 1].from_str(f'({x!r} {y!r} {z!r})'))
     if A is None:
@@ -589,6 +630,18 @@ def apply_op(op: tuple, regs: list):
     if name == 'ctor_frozen':
         cls = FrozenVec if isvec(A) else FrozenAngle if isang(A) else FrozenMatrix
         return ('__new__', None, [a], [cls(A)])
+    if name == 'ctor_cross':          # an angle from a vector object, a vector from an angle object (and the same family)
+        if ismat(A): return None
+        return ('__init__', None, [a], [(Vec, FrozenVec, Angle, FrozenAngle)[k](A)])
+    if name == 'set_key':
+        if not isang(A): return None
+        key = ANG_KEYS[k % 3][1 + (k + len(regs)) % (len(ANG_KEYS[k % 3]) - 1)]
+        try:
+            A[key] = x
+        except TypeError:
+            if is_frozen(A): return ('__setitem__', a, [], [])
+            raise
+        return ('__setitem__', a, [], [])
     if name == 'iter_ctor':
         if ismat(A): return None
         return ('__init__', None, [a], [(Vec, FrozenVec, Angle, FrozenAngle)[k](iter(A))])
@@ -759,9 +812,12 @@ class HistRunner:
             return
         before = [snap(o) for o in regs]
         try:
-            with warnings.catch_warnings():
+            with warnings.catch_warnings(), impl_limit():
                 warnings.simplefilter('ignore')
                 res = apply_op(tuple(op), regs)
+        except ImplTimeout:
+            problems.append((f'implementation-hangs-in-{op[0]}', f'{op[0]} did not return within {IMPL_CPU_LIMIT:.0f} s of CPU time', step))
+            return
         except (TypeError, AttributeError, ValueError, ZeroDivisionError, KeyError, NotImplementedError, OverflowError, ArithmeticError):
             res = ('<raised>', op[1], [], [])
         if res is None:
@@ -1066,6 +1122,241 @@ def search_to_angle(ck: Ck) -> None:
         ck.violation(key, f'{route}{tuple(v)!r} gives (pitch, yaw, roll) = {vals!r}', {'route': route, 'values': [x.hex() for x in v]})
 
 
+# ------------------------------------------------------------------------------------------------ constructor argument forms
+CTOR_FLOATS = [0.0, -0.0, 360.0, -360.0, 720.0, -720.0, -90.0, -1e-14, 1e-14, -1e-9, -3.5e-15, 359.99999999999994, 360.00000000000006,
+               -359.99999999999994, 90.0, 180.0, 270.0, 450.0, -725.5, 1e9, -1e9, 1e300, -1e300, -5e-324, 5e-324, 359.9999999, -2.0 ** -45,
+               12.5, 1e16, -1e16, 359.9999997, -4.2e-14]
+CTOR_INTS = [0, 1, -1, 90, -90, 359, 360, 361, -360, 720, -725, 10 ** 6, -10 ** 9, True, False, 10 ** 18]
+FAMILY_KW = {'ang': ('pitch', 'yaw', 'roll'), 'vec': ('x', 'y', 'z')}
+ANG_KEYS = ((0, 'p', 'pit', 'pitch'), (1, 'y', 'yaw'), (2, 'r', 'rol', 'roll'))
+VEC_KEYS = ((0, 'x'), (1, 'y'), (2, 'z'))
+
+
+def norm360(x) -> float:
+    """What the property demands of a stored angle component: the double modulo of the float (tied to Num/Mod360.v by
+    correspondence:pymod360)."""
+    return float(x) % 360.0 % 360.0
+
+
+def ctor_forms() -> dict:
+    """Every public way of building an Angle/FrozenAngle/Vec/FrozenVec from given numbers: name -> f(C, v, fam, k) returning
+    (object, the three numbers it must hold BEFORE normalisation).  `nrm` marks values that arrive through an existing
+    angle (already normalised there)."""
+    import array
+    import collections
+    from srctools.math import Angle, FrozenAngle, FrozenVec, Matrix, Vec, Vec_tuple
+    nrm = lambda v: tuple(norm360(x) for x in v)
+    fl = lambda v: tuple(float(x) for x in v)
+    txt = lambda v: ' '.join(repr(float(x)) for x in v)
+    mut = lambda fam: Angle if fam == 'ang' else Vec
+    frz = lambda fam: FrozenAngle if fam == 'ang' else FrozenVec
+    own = lambda fam, v: nrm(v) if fam == 'ang' else fl(v)      # components of an existing object of the same family
+    F: dict = {}
+    F['floats'] = lambda C, v, fam, k: (C(float(v[0]), float(v[1]), float(v[2])), v)
+    F['numbers'] = lambda C, v, fam, k: (C(v[0], v[1], v[2]), v)                       # ints / bools / floats as given
+    F['one'] = lambda C, v, fam, k: (C(v[0]), (v[0], 0.0, 0.0))
+    F['two'] = lambda C, v, fam, k: (C(v[0], v[1]), (v[0], v[1], 0.0))
+    F['none'] = lambda C, v, fam, k: (C(), (0.0, 0.0, 0.0))
+    F['kw'] = lambda C, v, fam, k: (C(**dict(zip(FAMILY_KW[fam], v))), v)
+    F['kw_one'] = lambda C, v, fam, k: (C(**{FAMILY_KW[fam][k % 3]: v[k % 3]}), tuple(v[i] if i == k % 3 else 0.0 for i in range(3)))
+    F['pos_kw'] = lambda C, v, fam, k: (C(v[0], **{FAMILY_KW[fam][2]: v[2]}), (v[0], 0.0, v[2]))
+    F['vec'] = lambda C, v, fam, k: (C(Vec(*v)), fl(v))
+    F['fvec'] = lambda C, v, fam, k: (C(FrozenVec(*v)), fl(v))
+    F['vec_and_defaults'] = lambda C, v, fam, k: (C((Vec, FrozenVec)[k & 1](*v), 5.0, -7.0), fl(v))
+    F['angle'] = lambda C, v, fam, k: (C(Angle(*v)), nrm(v))
+    F['fangle'] = lambda C, v, fam, k: (C(FrozenAngle(*v)), nrm(v))
+    F['angle_and_defaults'] = lambda C, v, fam, k: (C((Angle, FrozenAngle)[k & 1](*v), 5.0, -7.0), nrm(v))
+    F['tuple'] = lambda C, v, fam, k: (C(tuple(v)), v)
+    F['list'] = lambda C, v, fam, k: (C(list(v)), v)
+    F['iterator'] = lambda C, v, fam, k: (C(iter(list(v))), v)
+    F['generator'] = lambda C, v, fam, k: (C(x for x in v), v)
+    F['map'] = lambda C, v, fam, k: (C(map(float, v)), v)
+    F['reversed'] = lambda C, v, fam, k: (C(reversed([v[2], v[1], v[0]])), v)
+    F['vec_tuple'] = lambda C, v, fam, k: (C(Vec_tuple(*v)), v)
+    F['as_tuple'] = lambda C, v, fam, k: (C((Angle, FrozenAngle)[k & 1](*v).as_tuple()), nrm(v))
+    F['deque'] = lambda C, v, fam, k: (C(collections.deque(v)), v)
+    F['array'] = lambda C, v, fam, k: (C(array.array('d', fl(v))), v)
+    F['dict_keys'] = lambda C, v, fam, k: (C(dict.fromkeys(fl(v)[:1])), (v[0], 0.0, 0.0))
+    F['short1'] = lambda C, v, fam, k: (C([v[0]]), (v[0], 0.0, 0.0))
+    F['short1_defaults'] = lambda C, v, fam, k: (C((v[0],), v[1], v[2]), v)
+    F['short2_defaults'] = lambda C, v, fam, k: (C([v[0], v[1]], 123.0, v[2]), v)
+    F['empty_defaults'] = lambda C, v, fam, k: (C((), v[1], v[2]), (0.0, v[1], v[2]))
+    F['long4'] = lambda C, v, fam, k: (C([v[0], v[1], v[2], 99.0]), v)
+    F['from_str'] = lambda C, v, fam, k: (C.from_str(txt(v)), v)
+    F['from_str_brackets'] = lambda C, v, fam, k: (C.from_str(('({})', '[{}]', ' <{}> ', '{{{}}}')[k].format(txt(v))), v)
+    F['from_str_defaults'] = lambda C, v, fam, k: (C.from_str(('not a vector', '1 2', '', '1 2 3 4')[k], v[0], v[1], v[2]), v)
+    F['from_str_vec'] = lambda C, v, fam, k: (C.from_str((Vec, FrozenVec)[k & 1](*v)), fl(v))
+    F['from_str_angle'] = lambda C, v, fam, k: (C.from_str((Angle, FrozenAngle)[k & 1](*v)), nrm(v))
+    F['with_axes1'] = lambda C, v, fam, k: (C.with_axes(FAMILY_KW[fam][k % 3], v[k % 3]), tuple(v[i] if i == k % 3 else 0.0 for i in range(3)))
+    F['with_axes2'] = lambda C, v, fam, k: (C.with_axes(FAMILY_KW[fam][2], v[2], FAMILY_KW[fam][0], v[0]), (v[0], 0.0, v[2]))
+    F['with_axes3'] = lambda C, v, fam, k: (C.with_axes(FAMILY_KW[fam][1], v[1], FAMILY_KW[fam][2], v[2], FAMILY_KW[fam][0], v[0]), v)
+    F['with_axes_objects'] = lambda C, v, fam, k: (C.with_axes(FAMILY_KW[fam][1], mut(fam)(*v), FAMILY_KW[fam][0], frz(fam)(*v)),
+                                                   (own(fam, v)[0], own(fam, v)[1], 0.0))
+
+    def from_basis(C, v, fam, k):
+        if fam != 'ang':
+            raise LookupError
+        m = Matrix.from_angle(*nrm(v))
+        return (C.from_basis(x=m.forward(), z=m.up()) if k & 1 else C.from_basis(x=m.forward(), y=m.left())), None
+    F['from_basis'] = from_basis
+
+    def setter(how):
+        def f(C, v, fam, k):
+            if C not in (Angle, Vec):
+                raise LookupError               # frozen classes have no setters (their refusal is part of the histories)
+            o = C(1.0, 2.0, 3.0)
+            keys = ANG_KEYS if fam == 'ang' else VEC_KEYS
+            for i in range(3):
+                if how == 'attr':
+                    setattr(o, FAMILY_KW[fam][i], v[i])
+                else:
+                    o[keys[i][0] if how == 'index' else keys[i][1 + k % (len(keys[i]) - 1)]] = v[i]
+            return o, v
+        return f
+    F['set_attr'], F['set_index'], F['set_key'] = setter('attr'), setter('index'), setter('key')
+    return F
+
+
+def ctor_posts() -> dict:
+    """What is done with a constructed object: name -> f(o) returning the object that must equal o (or LookupError)."""
+    from srctools.math import Angle, FrozenAngle, FrozenVec, Vec
+
+    def twin(o, frozen: bool):
+        return ((Angle, FrozenAngle) if isang(o) else (Vec, FrozenVec))[frozen]
+
+    def only(pred, f):
+        def g(o):
+            if not pred(o):
+                raise LookupError
+            return f(o)
+        return g
+    P = {'copy': lambda o: o.copy(), 'copy_copy': copy.copy, 'deepcopy': copy.deepcopy}
+    for proto in range(2, pickle.HIGHEST_PROTOCOL + 1):
+        P[f'pickle{proto}'] = lambda o, proto=proto: pickle.loads(pickle.dumps(o, protocol=proto))
+    P['freeze'] = only(lambda o: not is_frozen(o), lambda o: o.freeze())
+    P['thaw'] = only(is_frozen, lambda o: o.thaw())
+    P['freeze_thaw'] = only(lambda o: not is_frozen(o), lambda o: o.freeze().thaw())
+    P['ctor_same'] = lambda o: type(o)(o)
+    P['ctor_mutable'] = lambda o: twin(o, False)(o)
+    P['ctor_frozen'] = lambda o: twin(o, True)(o)
+    P['from_str_object'] = lambda o: type(o).from_str(o)
+    P['ctor_components'] = lambda o: type(o)(*o)
+    P['ctor_str'] = only(isang, lambda o: type(o).from_str(' '.join(repr(c) for c in o)))
+    return P
+
+
+def raw_slots(o) -> tuple:
+    return tuple(getattr(o, s, None) for s in slots_of(o))
+
+
+def unhex(x):
+    return float.fromhex(x) if isinstance(x, str) and 'x' in x else ast.literal_eval(x) if isinstance(x, str) else x
+
+
+def hexes(t) -> list:
+    return [x.hex() if isinstance(x, float) else repr(x) for x in t]
+
+
+def ctor_case(cname: str, form: str, v: list, k: int, limit=None) -> list[tuple[str, str]]:
+    """Build one object and test it.  Returns [(violation key, text)].  An exception from the implementation is a
+    failure too: every form listed is part of the documented constructor interface."""
+    import srctools.math as M
+    C = getattr(M, cname)
+    fam = 'ang' if 'Angle' in cname else 'vec'
+    F = ctor_forms()
+    try:
+        with (limit or no_limit)():
+            o, raw = F[form](C, v, fam, k)
+    except LookupError:
+        return []
+    except ImplTimeout:
+        return [(f'implementation-hangs-in-ctor-{form}-{cname}', f'{cname} by {form} of {v!r} did not return within the CPU time limit')]
+    except Exception as e:          # noqa: BLE001 - whatever a broken tree raises
+        return [(f'ctor-raised-{form}-{cname}', f'{cname} by {form} of {v!r} raised {type(e).__name__}: {e}')]
+    out: list[tuple[str, str]] = []
+    what = f'{cname} by {form} of {v!r} (k={k})'
+    if type(o) is not C:
+        return [(f'ctor-wrong-class-{form}-{cname}', f'{what} is a {type(o).__name__}')]
+    got = raw_slots(o)
+    if not all(type(x) is float for x in got):
+        return [(f'ctor-slot-not-float-{form}-{cname}', f'{what} holds {got!r}')]
+    if not all(math.isfinite(x) for x in got):
+        return []                                   # non-finite values are outside the property
+    if fam == 'ang' and not all(0.0 <= x < 360.0 for x in got):
+        out.append((f'angle-out-of-range-after-ctor-{form}-{cname}', f'{what} holds {got!r}'))
+    if (o.pitch, o.yaw, o.roll) != got if fam == 'ang' else (o.x, o.y, o.z) != got:
+        out.append((f'ctor-property-differs-from-slot-{form}-{cname}', f'{what}: slots {got!r}'))
+    if raw is not None:
+        exp = tuple(norm360(x) for x in raw) if fam == 'ang' else tuple(float(x) for x in raw)
+        if hexes(exp) != hexes(got):
+            out.append((f'{"angle" if fam == "ang" else "vec"}-ctor-wrong-value-{form}-{cname}', f'{what} holds {got!r}, the components given are {exp!r}'))
+        else:
+            # equal to, and (frozen) hashing like, the same value built from three floats
+            ref = C(*exp)
+            if not (o == ref) or (o != ref) or not (o == exp) or not (ref == o):
+                out.append((f'ctor-not-equal-to-same-value-{form}-{cname}', f'{what} == {ref!r} is false'))
+            if is_frozen(o) and hash(o) != hash(ref):
+                out.append((f'frozen-hash-differs-for-same-value-{form}-{cname}', f'hash of {what} differs from hash({ref!r})'))
+    if out:
+        return out
+    for pname, post in ctor_posts().items():
+        try:
+            with (limit or no_limit)():
+                r = post(o)
+        except LookupError:
+            continue
+        except ImplTimeout:
+            return [(f'implementation-hangs-in-{pname}-{cname}', f'{pname} of {what} did not return within the CPU time limit')]
+        except Exception as e:      # noqa: BLE001
+            out.append((f'copy-raised-{pname}-{cname}', f'{pname} of {what} raised {type(e).__name__}: {e}'))
+            continue
+        frozen_res = pname in ('freeze', 'ctor_frozen') or (is_frozen(o) and pname not in ('thaw', 'ctor_mutable'))
+        want = ((M.Angle, M.FrozenAngle) if fam == 'ang' else (M.Vec, M.FrozenVec))[frozen_res]
+        if type(r) is not want:
+            out.append((f'copy-wrong-class-{pname}-{cname}', f'{pname} of {what} is a {type(r).__name__}'))
+            continue
+        if hexes(raw_slots(r)) != hexes(got):
+            out.append((f'copy-not-equal-{pname}-{cname}', f'{pname} of {what} = {got!r} holds {raw_slots(r)!r}'))
+        elif not (r == o) or (r != o) or (is_frozen(r) and is_frozen(o) and hash(r) != hash(o)):
+            out.append((f'copy-compares-unequal-{pname}-{cname}', f'{pname} of {what}: == / hash disagree although all slots are identical'))
+        if r is o and not is_frozen(o):
+            out.append((f'copy-is-same-object-{pname}-{cname}', f'{pname} of {what} returned the mutable object itself'))
+        if raw_slots(o) != got:
+            out.append((f'source-changed-by-{pname}-{cname}', f'{pname} changed {what} from {got!r} to {raw_slots(o)!r}'))
+    return out
+
+
+def search_ctor_forms(ck: Ck) -> None:
+    """Every constructor argument form x boundary and out-of-range values x the four vector/angle classes, then every
+    copy-like operation on the result (input 3 of round 4: a fast path for ONE argument form of ONE class)."""
+    rng = ck.rng
+    forms = list(ctor_forms())
+    n = ck.budget(40, 300)
+    triples: list[list] = [[s, s, s] for s in CTOR_FLOATS[:12]]
+    triples += [[CTOR_FLOATS[(i + j) % len(CTOR_FLOATS)] for j in (0, 7, 19)] for i in range(len(CTOR_FLOATS))][:max(0, n // 2 - 12)]
+    while len(triples) < n:
+        q = rng.random()
+        triples.append([rng.choice(CTOR_INTS) if q < 0.3 or (q < 0.5 and rng.random() < 0.5) else rnd_val(rng) if rng.random() < 0.5 else rng.choice(CTOR_FLOATS)
+                        for _ in range(3)])
+    found: dict[str, tuple] = {}
+    for ti, v in enumerate(triples):
+        for form in forms:
+            for cname in ('Angle', 'FrozenAngle', 'Vec', 'FrozenVec'):
+                k = (ti + len(form)) % 4
+                probs = ctor_case(cname, form, v, k, impl_limit)
+                ck.count('ctor_form_cases')
+                ck.hist('ctor_form', form)
+                if 'Angle' in cname and any(not (0.0 <= float(x) < 360.0) or str(x) == '-0.0' for x in v):
+                    ck.seen(('ctor', cname, form, repr(v), k))
+                for key, what in probs:
+                    if key not in found:
+                        found[key] = (what, {'call': 'ctor_case', 'cls': cname, 'form': form, 'values': hexes(v), 'k': k,
+                                             'how': 'checks.c05.ctor_case(cls, form, values, k)'})
+    ck.sample({'ctor_case': ['FrozenAngle', 'vec', [-90.0, 720.0, -1e-14]], 'slots': hexes(raw_slots(ctor_forms()['vec'](__import__('srctools.math').math.FrozenAngle, [-90.0, 720.0, -1e-14], 'ang', 0)[0]))})
+    for key, (what, rp) in found.items():
+        ck.violation(key, what, rp)
+
+
 def theorems_with_axioms(ck: Ck, props_file: str = 'Props/C05.v'):
     """Starts the Print Assumptions pass in the background (it only reads the built .vo files and costs ~30 s through
     Flocq/Reals); the returned function waits for it and records the obligations.  A background job that could not run
@@ -1108,7 +1399,7 @@ def theorems_with_axioms(ck: Ck, props_file: str = 'Props/C05.v'):
 # statements of Props/C05.v that go through Flocq's real-number layer (the four classical axioms of Coq's Reals); every other
 # statement is expected to be closed under the global context.  Only a hint for the fast path below: if it is wrong in
 # either direction the per-statement pass runs and reports what Print Assumptions really says.
-REALS_THEOREMS = {'c05_norm360_range', 'c05_single_mod_closed', 'c05_single_mod_refuted', 'c05_angle_range_invariant', 'c05_single_site_refuted',
+REALS_THEOREMS = {'c05_ctor_range', 'c05_ctor_vec_copy_refuted', 'c05_norm360_range', 'c05_single_mod_closed', 'c05_single_mod_refuted', 'c05_angle_range_invariant', 'c05_single_site_refuted',
                   'c05_double360_id', 'c05_double360_idempotent', 'c05_double360_of_360', 'c05_within_5e7_R', 'c05_float_parse_error',
                   'c05_float_parse_exact', 'c05_copy_value_equal_angles', 'c05_double360_sub', 'c05_angle_component_roundtrip',
                   'c05_angle_text_roundtrip', 'c05_vec_text_roundtrip'}
@@ -1236,6 +1527,7 @@ def run(ck: Ck) -> None:
             'no_single_modulo_store': empty('sites_of_kind is_single angle_sites'),
             'no_unclassified_angle_store': empty('sites_of_kind is_other angle_sites'),
             'no_unclassified_angle_creation': 'all_creations_ok angle_creations',
+            'angle_constructors_normalise_every_argument_form': 'ctor_table_ok angle_ctors angle_ctor_rows',
             'to_angle_stores_all_slots': 'to_angle_stores_all_slots',
             'angle_init_stores_all_slots': 'angle_init_stores_all_slots',
             'format_float_pipeline_recognised': 'format_float_recognised',
@@ -1266,7 +1558,7 @@ def run(ck: Ck) -> None:
         # the model evaluations (coqc processes) run in the pool while the searches on the implementation run here
         pend = [Pending(ck, g(ck), pool) for g in (corr_mod, corr_format, corr_parse)] if built else []
         info = pool.submit(ck.coq_eval, IMPORTS, ['bad_events no_carve mut_events', 'bad_results result_kinds', 'bad_creations angle_creations',
-                                                  'neg_zero_fix format_float_cfg', 'bad_shapes copy_shapes'], 'info', 600, 'Import ListNotations.') if built else None
+                                                  'neg_zero_fix format_float_cfg', 'bad_shapes copy_shapes', 'bad_ctor_rows angle_ctor_rows'], 'info', 600, 'Import ListNotations.') if built else None
         escalated = bool(ck.tie_broken)
         frames = guarded(ck, search_histories, [])
         if built:
@@ -1274,12 +1566,14 @@ def run(ck: Ck) -> None:
             corr_results(ck, frames, side)
             corr_shapes(ck, frames, side)
         guarded(ck, search_to_angle)
+        guarded(ck, search_ctor_forms)
         guarded(ck, search_text)
         for p in pend:
             p.finish()
         v = info.result() if info is not None else None
         if v:
-            ck.extra['offending_census_entries'] = {'mut_events': v[0], 'result_kinds': v[1], 'angle_creations': v[2], 'copy_shapes': v[4]}
+            ck.extra['offending_census_entries'] = {'mut_events': v[0], 'result_kinds': v[1], 'angle_creations': v[2], 'copy_shapes': v[4],
+                                                     'angle_ctor_rows (constructor, argument form)': v[5]}
             ck.extra['format_float_has_negative_zero_repair (carve-out of c05_format6_shape empty when true)'] = v[3]
         if finish_theorems is not None:
             finish_theorems()
@@ -1287,6 +1581,7 @@ def run(ck: Ck) -> None:
         # a correspondence failed after the searches had run with the small budget: search again with the escalated one
         guarded(ck, search_histories)
         guarded(ck, search_to_angle)
+        guarded(ck, search_ctor_forms)
         guarded(ck, search_text)
     explain_failures(ck)
 
@@ -1333,6 +1628,12 @@ def explain_failures(ck: Ck) -> None:
         for o in ('instance:all_angle_store_sites_safe', 'instance:no_single_modulo_store', 'instance:no_unclassified_angle_store',
                   'instance:no_unclassified_angle_creation', 'instance:to_angle_stores_all_slots', 'instance:angle_init_stores_all_slots'):
             ck.explain(o)
+    if any(k.startswith(('angle-out-of-range-after-ctor', 'angle-ctor-wrong-value', 'ctor-', 'angle-out-of-range-after-iter_ctor',
+                         'angle-out-of-range-after-new_', 'angle-out-of-range-after-ctor_')) for k in keys):
+        ck.explain('instance:angle_constructors_normalise_every_argument_form')
+    if any(k.startswith('angle-ctor-wrong-value') for k in keys):
+        for o in ('instance:all_angle_store_sites_safe', 'instance:no_single_modulo_store', 'instance:no_unclassified_angle_store'):
+            ck.explain(o)
     if any(k.startswith(('frozen-', 'frozenmatrix-', 'non-receiver-')) for k in keys):
         ck.explain('instance:mutation_census_ok')
         ck.explain('instance:no_write_through_unknown_or_aliased_object')
@@ -1352,6 +1653,12 @@ def replay(data: dict) -> int:
             print(f)
         print('registers:', [snap(o)[:2] for o in regs])
         print('problems:', problems)
+        return 0
+    if isinstance(r, dict) and r.get('call') == 'ctor_case':
+        v = [unhex(x) for x in r['values']]
+        print(f"ctor_case({r['cls']!r}, {r['form']!r}, {v!r}, {r['k']})")
+        for key, what in ctor_case(r['cls'], r['form'], v, r['k']):
+            print(' ', key, '--', what)
         return 0
     if isinstance(r, dict) and r.get('call') == 'format_float':
         from srctools.math import format_float
